@@ -97,6 +97,10 @@ package server
 //@   loop 4 invariant len(images) == c19nimg(currMsgIdx + rangeindex + 1) - c19nimg(currMsgIdx)
 //@   loop 5 invariant forall k int :: 0 <= k && k < len(images) ==> images[k].ID == k
 //@   loop 5 invariant len(images) == c19nimg(currMsgIdx + cnt) - c19nimg(currMsgIdx) + rangeindex + 1
+// every image gets its tag into the message text: it is appended to the prefix, or it replaces a
+// placeholder that IS in the text at that moment (Replace(.., 1) on a text without "[img]" inserts
+// nothing, and the image would be sent without a tag) - added after seeded change C19-seed1
+//@   assert-at call strings.Replace #1 : scontains(arg0, "[img]") && arg1 == "[img]" && arg2 == imgTag && arg3 == 1
 //@   assert-at call append #4 : imgData.ID == len(images) && 0 <= cnt && currMsgIdx + cnt <= len(msgs) - 1
 //
 //   THE FINAL RENDERING (append #5 builds the message list that is passed to Execute #2):
